@@ -11,6 +11,8 @@
   `wok text` = the text was written; `werr` = `Err(fmt::Error)`.
 -/
 import Chrono.Proofs.FormatL
+import Chrono.Proofs.StrftimeL
+import Chrono.Proofs.IsoL
 import Chrono.Extracted.SpecTable
 
 namespace Chrono.Props.C12
@@ -74,6 +76,21 @@ theorem numeric_ok_weeks (y : Int) (o : Nat) (hy : MIN_YEAR ≤ y ∧ y ≤ MAX_
     format_numeric (some (dateOfYo y o)) t off n pad = wok (renderNumeric n pad y o tt oo) :=
   FormatL.numeric_weeks y o hy ho t off tt oo pad n hn
 
+/-- `NaiveDate::iso_week` (flag-bit arithmetic on the packed word) is the ISO 8601 week date: the
+year and the week number of the Thursday of the date's Monday-based week; never panics -/
+theorem iso_week_spec (y : Int) (o : Nat) (hy : MIN_YEAR ≤ y ∧ y ≤ MAX_YEAR) (ho : 1 ≤ o ∧ o ≤ yearLen y) :
+    ∃ ywf, (dateOfYo y o).iso_week = .ok ywf ∧ IsoWeek.year ywf = isoYear y o ∧
+      IsoWeek.week ywf = isoWeek y o :=
+  IsoL.iso_week_spec y o hy ho
+
+/-- `%G %g %V` (and the ISO century item): `%g` for ISO years ≥ 0 -/
+theorem numeric_ok_iso (y : Int) (o : Nat) (hy : MIN_YEAR ≤ y ∧ y ≤ MAX_YEAR) (ho : 1 ≤ o ∧ o ≤ yearLen y)
+    (t : Option Time) (off : Option Int) (tt : Time) (oo : Int) (pad : Pad) (n : Numeric)
+    (hn : n ∈ [Numeric.isoYear, .isoYearDiv100, .isoYearMod100, .isoWeek])
+    (_hy0 : n = .isoYearMod100 → 0 ≤ isoYear y o) :
+    format_numeric (some (dateOfYo y o)) t off n pad = wok (renderNumeric n pad y o tt oo) :=
+  IsoL.numeric_iso y o hy ho t off tt oo pad n hn
+
 /-- `%H %k %I %l %M %S %f`: 12-hour clock 12,1,…,11; second 60 for a leap second; nanoseconds since
 the last whole second -/
 theorem numeric_ok_clock (t : Time) (ht : TValid t) (d : Option Date) (off : Option Int) (y : Int) (o : Nat)
@@ -88,6 +105,29 @@ theorem numeric_ok_timestamp (y : Int) (o : Nat) (hy : MIN_YEAR ≤ y ∧ y ≤ 
     format_numeric (some (dateOfYo y o)) (some t) off .timestamp pad =
       wok (renderNumeric .timestamp pad y o t (off.getD 0)) :=
   FormatL.numeric_timestamp y o hy ho t ht off hoff pad
+
+/-- **every numeric item, every padding, every value**: a zone-aware date-time (any date of the
+range, any time incl. leap seconds, any offset) formatted with any of the 21 numeric items and any
+padding modifier gives exactly the documented text (`%y`/`%g` stated for years ≥ 0 as in the
+property) — the five families above in one statement -/
+theorem numeric_ok (y : Int) (o : Nat) (hy : MIN_YEAR ≤ y ∧ y ≤ MAX_YEAR) (ho : 1 ≤ o ∧ o ≤ yearLen y)
+    (t : Time) (ht : TValid t) (off : Option Int) (hoff : ∀ v, off = some v → -86400 < v ∧ v < 86400)
+    (n : Numeric) (pad : Pad) (_h1 : n = .yearMod100 → 0 ≤ y) (_h2 : n = .isoYearMod100 → 0 ≤ isoYear y o) :
+    format_numeric (some (dateOfYo y o)) (some t) off n pad = wok (renderNumeric n pad y o t (off.getD 0)) := by
+  cases n
+  case timestamp => exact FormatL.numeric_timestamp y o hy ho t ht off hoff pad
+  case hour => exact FormatL.numeric_clock t ht _ off y o _ pad _ (by decide)
+  case hour12 => exact FormatL.numeric_clock t ht _ off y o _ pad _ (by decide)
+  case minute => exact FormatL.numeric_clock t ht _ off y o _ pad _ (by decide)
+  case second => exact FormatL.numeric_clock t ht _ off y o _ pad _ (by decide)
+  case nanosecond => exact FormatL.numeric_clock t ht _ off y o _ pad _ (by decide)
+  case weekFromSun => exact FormatL.numeric_weeks y o hy ho _ off t _ pad _ (by decide)
+  case weekFromMon => exact FormatL.numeric_weeks y o hy ho _ off t _ pad _ (by decide)
+  case isoYear => exact IsoL.numeric_iso y o hy ho _ off t _ pad _ (by decide)
+  case isoYearDiv100 => exact IsoL.numeric_iso y o hy ho _ off t _ pad _ (by decide)
+  case isoYearMod100 => exact IsoL.numeric_iso y o hy ho _ off t _ pad _ (by decide)
+  case isoWeek => exact IsoL.numeric_iso y o hy ho _ off t _ pad _ (by decide)
+  all_goals exact FormatL.numeric_calendar y o hy ho _ off t _ pad _ (by decide)
 
 /-! ### fixed specifiers -/
 
@@ -180,6 +220,31 @@ theorem unknown_or_missing_fails :
     cases d <;> cases t <;> cases f <;> first | rfl | (exfalso; revert hf; decide)
   · intro d t off
     cases d <;> cases t <;> cases off <;> rfl
+
+/-! ### the item iterator ends (also used by C15) -/
+
+/-- for every format byte string, strict or lenient: each `parse_next_item` call consumes at least
+one byte and queues at most 12 items; so the fuel `byte length + 1` of `items` is never exhausted
+(more fuel changes nothing), there are at most 13·len items (`%c` = 13 items from 2 bytes), and the
+real iterator (`next` on remainder + queue) yields exactly these items and then ends within
+13·len + 1 calls -/
+theorem strftime_terminates (l : Bool) (s : List Nat) :
+    (∀ r, parse_next_item l s = some r → r.1.length < s.length ∧ r.2.2.length ≤ 12) ∧
+    (∀ k, itemsAux l (s.length + 1 + k) s = itemsAux l (s.length + 1) s) ∧
+    (itemsAux l (s.length + 1) s).length ≤ 13 * s.length ∧
+    (∀ n, 13 * s.length < n → drain l n ⟨s, []⟩ = itemsAux l (s.length + 1) s) := by
+  refine ⟨fun r h => StrftimeL.parse_next_item_progress l s r h,
+    fun k => StrftimeL.itemsAux_fuel l _ _ s (by omega) (by omega),
+    StrftimeL.itemsAux_length l _ s, fun n hn => ?_⟩
+  have := StrftimeL.drain_eq l n ⟨s, []⟩ (by simpa using hn)
+  simpa using this
+
+/-- the error path ends the iteration: in strict mode an unknown specifier yields `Item::Error` and
+nothing after it (finding #3 repaired), in lenient mode the text is kept as literals -/
+example : items (str "%Y%Qabc %d") = [.numeric .year .zero, .error] ∧
+    itemsLenient (str "%Y%Qabc %d") = [.numeric .year .zero, .literal (str "%"), .literal (str "Qabc"),
+      .space (str " "), .numeric .day .zero] ∧
+    drain false 200 ⟨str "%c", []⟩ = items (str "%c") ∧ (items (str "%c")).length = 13 := by decide +kernel
 
 /-! ### non-vacuity -/
 
